@@ -45,6 +45,21 @@ variable {σ : Type} (E : Env σ)
 @[grind =] theorem parseStatus_dy (st : PState σ) : (parseStatus E st).2.defaultYear = st.defaultYear := by
   fun_cases parseStatus E st <;> (try simp +zetaDelta only [] at *) <;> (first | grind | (simp_all; done) | (simp_all; grind))
 
+@[grind =] theorem amountLeadSign_dy (st : PState σ) : (amountLeadSign E st).2.defaultYear = st.defaultYear := by
+  fun_cases amountLeadSign E st <;> (try simp +zetaDelta only [] at *) <;> (first | grind | (simp_all; done) | (simp_all; grind))
+
+@[grind =] theorem amountLeftCommodity_dy (sg : Bytes) (sb : Bool) (st : PState σ) : (amountLeftCommodity E sg sb st).2.defaultYear = st.defaultYear := by
+  fun_cases amountLeftCommodity E sg sb st <;> (try simp +zetaDelta only [] at *) <;> (first | grind | (simp_all; done) | (simp_all; grind))
+
+@[grind =] theorem amountSecondSign_dy (sg : Bytes) (st : PState σ) : (amountSecondSign E sg st).2.defaultYear = st.defaultYear := by
+  fun_cases amountSecondSign E sg st <;> (try simp +zetaDelta only [] at *) <;> (first | grind | (simp_all; done) | (simp_all; grind))
+
+@[grind =] theorem amountRightCommodity_dy (c : Commodity) (st : PState σ) : (amountRightCommodity E c st).2.defaultYear = st.defaultYear := by
+  fun_cases amountRightCommodity E c st <;> (try simp +zetaDelta only [] at *) <;> (first | grind | (simp_all; done) | (simp_all; grind))
+
+@[grind =] theorem amountNumber_dy (sp : Pos) (sg : Bytes) (c : Commodity) (sb : Bool) (st : PState σ) : (amountNumber E sp sg c sb st).2.defaultYear = st.defaultYear := by
+  fun_cases amountNumber E sp sg c sb st <;> (try simp +zetaDelta only [] at *) <;> (first | grind | (simp_all; done) | (simp_all; grind))
+
 @[grind =] theorem parseAmount_dy (st : PState σ) : (parseAmount E st).2.defaultYear = st.defaultYear := by
   fun_cases parseAmount E st <;> (try simp +zetaDelta only [] at *) <;> (first | grind | (simp_all; done) | (simp_all; grind))
 
@@ -71,8 +86,22 @@ variable {σ : Type} (E : Env σ)
 @[grind =] theorem txDescription_dy (st : PState σ) : (txDescription E st).2.defaultYear = st.defaultYear := by
   fun_cases txDescription E st <;> (try simp +zetaDelta only [] at *) <;> (first | grind | (simp_all; done) | (simp_all; grind))
 
+@[grind =] theorem txDate2_dy (st : PState σ) : (txDate2 E st).2.defaultYear = st.defaultYear := by
+  fun_cases txDate2 E st <;> (try simp +zetaDelta only [] at *) <;> (first | grind | (simp_all; done) | (simp_all; grind))
+
+@[grind =] theorem txStatus_dy (st : PState σ) : (txStatus E st).2.defaultYear = st.defaultYear := by
+  fun_cases txStatus E st <;> (try simp +zetaDelta only [] at *) <;> (first | grind | (simp_all; done) | (simp_all; grind))
+
+@[grind =] theorem txCode_dy (st : PState σ) : (txCode E st).2.defaultYear = st.defaultYear := by
+  fun_cases txCode E st <;> (try simp +zetaDelta only [] at *) <;> (first | grind | (simp_all; done) | (simp_all; grind))
+
+@[grind =] theorem txComment_dy (st : PState σ) : (txComment E st).2.defaultYear = st.defaultYear := by
+  fun_cases txComment E st <;> (try simp +zetaDelta only [] at *) <;> (first | grind | (simp_all; done) | (simp_all; grind))
+
 @[grind =] theorem txHeader_dy (st : PState σ) : (txHeader E st).2.defaultYear = st.defaultYear := by
-  fun_cases txHeader E st <;> (try simp +zetaDelta only [] at *) <;> (first | grind | (simp_all; done) | (simp_all; grind))
+  unfold txHeader
+  simp only []
+  split <;> simp [advance_dy, txComment_dy, txDescription_dy, txCode_dy, txStatus_dy, txDate2_dy]
 
 @[grind =] theorem parseTransaction_dy (st : PState σ) : (parseTransaction E st).2.defaultYear = st.defaultYear := by
   fun_cases parseTransaction E st <;> (try simp +zetaDelta only [] at *) <;> (first | grind | (simp_all; done) | (simp_all; grind))
@@ -88,6 +117,12 @@ variable {σ : Type} (E : Env σ)
 
 @[grind =] theorem commodityInline_dy (st : PState σ) : (commodityInline E st).2.defaultYear = st.defaultYear := by
   fun_cases commodityInline E st <;> (try simp +zetaDelta only [] at *) <;> (first | grind | (simp_all; done) | (simp_all; grind))
+
+@[grind =] theorem accountNameRest_dy (nm : Bytes) (st : PState σ) : (accountNameRest E nm st).2.defaultYear = st.defaultYear := by
+  fun_cases accountNameRest E nm st <;> (try simp +zetaDelta only [] at *) <;> (first | grind | (simp_all; done) | (simp_all; grind))
+
+@[grind =] theorem lineComment_dy (st : PState σ) : (lineComment E st).2.defaultYear = st.defaultYear := by
+  fun_cases lineComment E st <;> (try simp +zetaDelta only [] at *) <;> (first | grind | (simp_all; done) | (simp_all; grind))
 
 @[grind =] theorem parseAccountDirective_dy (sp : Pos) (st : PState σ) : (parseAccountDirective E sp st).2.defaultYear = st.defaultYear := by
   fun_cases parseAccountDirective E sp st <;> (try simp +zetaDelta only [] at *) <;> (first | grind | (simp_all; done) | (simp_all; grind))
